@@ -321,7 +321,7 @@ def ends (E : List WEdge) : Edges := E.map fun e => (e.1, e.2.1)
 def cost (E : List WEdge) : Nat := (E.map fun e => e.2.2).sum
 
 /-- `F` uses every input edge at most as often as it occurs in the input -/
-def SubMulti (F inp : List WEdge) : Prop := ∃ G : List WEdge, G.Sublist inp ∧ G.Perm F
+def SubMulti (F inp : List WEdge) : Prop := ∀ e, F.count e ≤ inp.count e
 
 /-- `F` is a spanning forest of `inp`: a cycle-free sub-multiset connecting exactly what `inp` connects -/
 structure SpanningForest (inp F : List WEdge) : Prop where
